@@ -164,7 +164,7 @@ theorem duplicate_rejected {file : List (Bool × ClassSrc)}
   | error e => exact ⟨e, rfl, specFile_err _ _ _ _ hr⟩
   | ok r =>
     obtain ⟨c, hc, c', hc', hn⟩ := h
-    exact absurd ((specFile_ok file [] ⟨0, .none, 0⟩ ⟨0, .none, 0⟩ r hr (Leq.refl _) (by simp) (by simp)).2.1 c hc c' hc') hn
+    exact absurd ((specFile_ok file [] ⟨0, .none, 0⟩ ⟨0, .none, 0⟩ r hr (Leq.refl _) (by simp) (by simp)).2.1 c hc c' hc').1 hn
 
 /-- the re-declared name is the one reported: a declarator whose name the class already has fails
     with `alreadyDefined` of that name -/
@@ -175,6 +175,20 @@ theorem duplicate_reports_name {cl : ClauseSt} {names : List String} {sec : Nat}
 example : ∃ c ∈ [(false, ClassSrc.mk ⟨"model", false, false, "D", "", none, 0⟩
       (.comp ⟨[], ["Real"], none, [⟨"x", none, [], 0, "", 0⟩, ⟨"x", none, [], 0, "", 0⟩]⟩ .nil) .nil)],
     ∃ c' ∈ c.2.deep, ¬ c'.names.Nodup := by decide
+
+/-- Exactly the clean files are accepted: the walk yields a tree iff no class of the file (at any
+    depth) declares a component twice or has clashing import clauses. -/
+theorem accepted_iff_clean (file : List (Bool × ClassSrc)) :
+    (∃ r, runListener file = .ok r) ↔ ∀ c ∈ file, ∀ c' ∈ c.2.deep, c'.Clean := by
+  rw [asm_refines]
+  constructor
+  · rintro ⟨r, hr⟩
+    exact (specFile_ok file [] ⟨0, .none, 0⟩ ⟨0, .none, 0⟩ r hr (Leq.refl _) (by simp) (by simp)).2.1
+  · intro h
+    exact file_accepted file [] _ h
+
+example : ∀ c ∈ demoFile, ∀ c' ∈ c.2.deep, c'.Clean := by
+  rw [← accepted_iff_clean, asm_refines]; exact ⟨_, rfl⟩
 
 /-- The only failures of a walk over a class description are the two `IOError`s the listener raises
     itself: never an ill-formed event stream, never the `AttributeError` on `symbol_node = None`. -/
